@@ -185,6 +185,9 @@ func (f *Frame) run(entryPC string, st *State) {
 		e.fail("function %s has no body", fn.Name())
 	}
 	f.entry = st.clone()
+	if f.top {
+		e.topEntry = f.entry
+	}
 	f.entryPC, f.entrySt = entryPC, st
 	f.process(f.order, nil)
 }
@@ -393,11 +396,14 @@ func (f *Frame) mergePreds(b *ssa.BasicBlock, only func(p *ssa.BasicBlock) bool)
 		st = f.out[ins[0].p].clone()
 	} else {
 		names := map[string]bool{}
+		var sts []*State
 		for _, in := range ins {
+			sts = append(sts, f.out[in.p])
 			for k := range f.out[in.p].heap {
 				names[k] = true
 			}
 		}
+		st.havocs = e.mergeEpoch(sts)
 		var ks []string
 		for k := range names {
 			ks = append(ks, k)
@@ -546,6 +552,7 @@ func (f *Frame) enterLoop(b *ssa.BasicBlock, li *loopInfo) (string, *State) {
 			for k := range e.compSort {
 				e.havocComp(st, k)
 			}
+			e.havocEpoch(st)
 			break
 		}
 		e.havocComp(st, c)
@@ -786,7 +793,7 @@ func (f *Frame) instr(ins ssa.Instruction) {
 		switch u := i.X.Type().Underlying().(type) {
 		case *types.Slice:
 			f.safety("bounds", and("(<= 0 "+idx.T+")", "(< "+idx.T+" (slen "+x.T+"))"), "index in range", i.Pos())
-			f.set(i, &Value{Loc: &Loc{Comp: e.elemComp(u.Elem()), Idx: []string{app("sarr", x.T), app("idx", x.T, idx.T)}, Type: u.Elem(), Root: u.Elem()}, Type: i.Type()})
+			f.set(i, &Value{Loc: &Loc{Comp: e.elemComp(u.Elem()), Idx: []string{app("sarr", x.T), app("idx", x.T, idx.T)}, Type: u.Elem(), Root: u.Elem()}, Type: i.Type(), Guard: x.Guard})
 		case *types.Pointer:
 			a := u.Elem().Underlying().(*types.Array)
 			if x.Loc != nil {
@@ -820,6 +827,11 @@ func (f *Frame) instr(ins ssa.Instruction) {
 		}
 		if v.Loc != nil || v.Fn != nil {
 			e.fail("%s: storing a static pointer/function value into the heap is outside the subset (%s)", f.fn.Name(), i)
+		}
+		if g := f.guardOf(l); g != nil {
+			f.guardAccess(g, true, "", i.Pos())
+		} else if addr.Guard != nil {
+			f.guardAccess(addr.Guard, true, " (element)", i.Pos())
 		}
 		e.storeLoc(f.st, l, v)
 	case *ssa.BinOp:
@@ -867,17 +879,37 @@ func (f *Frame) instr(ins ssa.Instruction) {
 		e.setComp(f.st, vn, store(e.comp(f.st, vn, arrSort(arrSortK(ks, vs))), r, fmt.Sprintf("((as const (Array %s %s)) %s)", ks, vs, e.sorts.zero(mt.Elem()))))
 		e.setComp(f.st, ln, store(e.comp(f.st, ln, arrSort(sInt)), r, "0"))
 		f.set(i, term(r, sInt, i.Type()))
+		if f.top && mapIsPrivate(i) {
+			// a map that never leaves this function (only indexed, updated, ranged over, len/delete): a callee cannot
+			// reach it, so a call's havoc leaves its entries alone (loop havoc still applies: cellAlloc has no entry)
+			if e.localCells == nil {
+				e.localCells = map[string][]string{}
+			}
+			if e.cellBlk == nil {
+				e.cellBlk = map[string]*ssa.BasicBlock{}
+			}
+			for _, cn := range []string{dn, vn, ln} {
+				e.localCells[cn] = append(e.localCells[cn], r)
+			}
+			e.cellBlk[r] = i.Block()
+		}
 	case *ssa.MakeChan:
 		r := e.allocRef(f.st, f.pc, f.id+"."+i.Name())
 		f.chanInit(r)
 		f.set(i, term(r, sInt, i.Type()))
 	case *ssa.MapUpdate:
+		f.guardAccess(f.val(i.Map).Guard, true, " (map entry)", i.Pos())
 		f.mapUpdate(f.val(i.Map), f.val(i.Key), f.val(i.Value), i.Map.Type())
 	case *ssa.Lookup:
+		f.guardAccess(f.val(i.X).Guard, false, " (map entry)", i.Pos())
 		f.lookup(i)
 	case *ssa.Range:
+		f.guardAccess(f.val(i.X).Guard, false, " (range)", i.Pos())
 		f.rangeInit(i)
 	case *ssa.Next:
+		if it := f.val(i.Iter); it != nil && it.Iter != nil && it.Iter.Map != nil {
+			f.guardAccess(it.Iter.Map.Guard, false, " (range step)", i.Pos())
+		}
 		f.next(i)
 	case *ssa.MakeClosure:
 		fn := i.Fn.(*ssa.Function)
@@ -945,9 +977,20 @@ func (f *Frame) unop(i *ssa.UnOp) {
 					"the function does not read "+nr.src+" (read frame: exported values must come from the label set being formatted)", i.Pos(), nil)
 			}
 		}
+		g := f.guardOf(l)
+		if g == nil && x.Guard != nil {
+			g = x.Guard // element of a slice that was loaded from a guarded field
+		}
+		f.guardAccess(g, false, "", i.Pos())
 		v := e.load(f.st, l)
 		v = term(e.define(f.id+"."+i.Name(), v.Sort, v.T), v.Sort, i.Type())
 		e.assumeAllocated(f.st, f.pc, v)
+		if gg := f.guardOf(l); gg != nil {
+			switch i.Type().Underlying().(type) {
+			case *types.Map, *types.Slice:
+				v.Guard = gg
+			}
+		}
 		f.vals[i] = v
 	case token.NOT:
 		f.set(i, term(not(x.T), sBool, i.Type()))
@@ -1276,7 +1319,9 @@ func (f *Frame) sliceOp(i *ssa.Slice) {
 		}
 		f.safety("bounds", and("(<= 0 "+lo+")", "(<= "+lo+" "+hi+")", "(<= "+hi+" "+mx+")", "(<= "+mx+" (scap "+x.T+"))"), "slice bounds in range", i.Pos())
 		t := app("mk-slice", app("sarr", x.T), app("+", app("soff", x.T), lo), app("-", hi, lo), app("-", mx, lo))
-		f.set(i, term(e.define(f.id+"."+i.Name(), sSlice, t), sSlice, i.Type()))
+		sv := term(e.define(f.id+"."+i.Name(), sSlice, t), sSlice, i.Type())
+		sv.Guard = x.Guard
+		f.set(i, sv)
 	case *types.Basic: // string
 		hi := app("s.len", x.T)
 		if i.High != nil {
